@@ -302,6 +302,41 @@ def step(ctx, w: World, klass, rng, replay, arg=None) -> bool:
     return True
 
 
+async def burst_step(ctx, w: World, klass, rng, replay) -> bool:
+    """Two advertisements reach the scanner callback within ONE loop iteration (the same broadcast relayed by two adapters /
+    proxies; two broadcasts heard out of order): B2 = genuine last+1 twice, B21 = genuine last+2 then genuine last+1.
+    Judged when the loop has run: one delivery, the state number at the newest - whenever the library does its bookkeeping."""
+    L = w.L
+    if L + 2 > 0xFFFF:
+        return True
+    iid = rng.choice(list(FORMATS))
+    value, expected = encode_value(rng, FORMATS[iid])
+    ns = [L + 1, L + 1] if klass == "B2" else [L + 2, L + 1]
+    payloads = {n: refb.seal(w.key, DEVICE_ID, n, refb.plaintext_for(n & 0xFFFF, iid, value)) for n in set(ns)}
+    before_log = len(w.log)
+    ctx.count("advertisements_fed", 2)
+    try:
+        for n in ns:
+            w.feed(DEVICE_ID, refb.encrypted_notification(DEVICE_ID, payloads[n]))
+    except Exception as ex:  # noqa: BLE001
+        ctx.violation(f"scanner-callback-raises-{type(ex).__name__}", f"{klass} from state {L}: {ex!r}", replay)
+        return False
+    for _ in range(4):
+        await asyncio.sleep(0)
+    events = w.log[before_log:]
+    state = w.pairing.description.state_num
+    if not events and state == L:
+        ctx.count("genuine_not_accepted")
+        return True
+    if len(events) != 1 or state != ns[0]:
+        ctx.violation("replay-of-current-state-accepted" if klass == "B2" else "older-state-accepted",
+                      f"class {klass} from last accepted {L}: nonces {ns} reached the scanner callback in one loop iteration; listeners got {len(events)} deliveries {events}, state number is {state} (expected one delivery, state {ns[0]})", replay)
+        return False
+    ctx.count("same_iteration_bursts_checked")
+    w.L = ns[0]
+    return True
+
+
 async def run_history(ctx, start, history, idx, cold=False) -> None:
     rng = ctx.grng("C18", start, history, idx)
     w = World(rng, start, cold=cold)
@@ -310,6 +345,10 @@ async def run_history(ctx, start, history, idx, cold=False) -> None:
     replay = {"start": start, "history": list(history), "idx": idx, "cold": cold}
     ctx.case(start, tuple(history), idx, sample={"start_state_number": start, "history": list(history)}, kind="h%d" % min(len(history), 4))
     for klass in history:
+        if klass in ("B2", "B21"):
+            if not await burst_step(ctx, w, klass, rng, replay):
+                return
+            continue
         if not step(ctx, w, klass, rng, replay):
             return
         await asyncio.sleep(0)
@@ -393,6 +432,11 @@ def run(ctx) -> None:
                 idx += 1
                 if ctx.mine(idx):
                     await run_history(ctx, start, hist, ("unknown-iid", idx))
+        for start in starts:
+            for hist in (("B2",), ("B21",), ("G1", "B2", "Gcur"), ("B21", "Gold"), ("B2", "B21", "B2")):
+                idx += 1
+                if ctx.mine(idx):
+                    await run_history(ctx, start, hist, ("burst", idx))
         # cold starts (pairing rebuilt from the cache, no regular advertisement yet): old numbers stay old, fresh ones are fresh
         for start in (255, 500, 65000):
             for hist in (("Gsm",), ("Gold", "G1"), ("G1", "Gcur"), ("Gsm", "Gk", "Gold"), ("Gcur", "G1", "Gsm")):
@@ -410,7 +454,7 @@ def run(ctx) -> None:
         rng = ctx.rng("C18.random")
         for k in range(ctx.pick(640, 8000) // ctx.nshards):
             n = rng.randint(4, ctx.pick(14, 60))
-            hist = tuple(rng.choice(["G1", "G1", "G1", "Gk", "Gk99", "Gcur", "Gold", "Gold", "G100", "WK", "IG", "WA", "TR", "GU"]) for _ in range(n))
+            hist = tuple(rng.choice(["G1", "G1", "G1", "Gk", "Gk99", "Gcur", "Gold", "Gold", "G100", "WK", "IG", "WA", "TR", "GU", "B2", "B21"]) for _ in range(n))
             await run_history(ctx, rng.choice(starts + [rng.randrange(0, 65000)]), hist, ("r", ctx.shard, k))
         await asyncio.sleep(0)
 
